@@ -8,7 +8,7 @@ from .. import flow, hir as H, mir as M
 from ..core import Anchor
 
 # callees (generic-stripped suffix) that put their `&mut self` argument into its empty/initial state
-RESET_CALLEES = ("alloc::vec::Vec::clear", "alloc::collections::btree::map::BTreeMap::clear",
+RESET_CALLEES = ("alloc::vec::Vec::clear", "alloc::vec::Vec::drain", "alloc::collections::btree::map::BTreeMap::clear",
                  "alloc::collections::vec_deque::VecDeque::clear", "alloc::string::String::clear")
 LOCAL_RESET_NAMES = ("reset", "clear", "reinit_from")
 
@@ -22,6 +22,8 @@ def _is_reset_callee(crate, callee):
         return True, None
     for p, f in crate.fns.items():
         if H.strip_generics(p) == cs and f["name"] in LOCAL_RESET_NAMES:
+            if not f.get("has_body", True) or p not in crate.mir:
+                return True, None        # trait method declaration: its implementations are checked separately
             return True, p
     return False, None
 
